@@ -205,9 +205,22 @@ def run_real(case):
             paths = []
             for i, f in enumerate(case["files"]):
                 p = _collision_name(tmp, i) if i in collide else None
+                if p is None and case.get("layout") == "dirs":
+                    # one base name in per-file directories (run/rank0/trace.json, run/rank1/trace.json, ...)
+                    p = os.path.join(tmp, f"d{i}" if gen == 0 else f"d{i}_g{gen}", "trace.json")
+                    os.makedirs(os.path.dirname(p), exist_ok=True)
                 p = p or os.path.join(tmp, f"f{i}.json" if gen == 0 else f"f{i}_g{gen}.json")
                 with open(p, "w") as fh:
                     json.dump(file_json(f), fh)
+                paths.append(p)
+            if case.get("torch_last"):
+                # a file of ANOTHER dialect (torch profile: deviceProperties) with the same base name, registered
+                # last; its single event lies far behind everything else and carries no id (dropped from `out`)
+                p = os.path.join(tmp, "dT" if gen == 0 else f"dT_g{gen}", "trace.json")
+                os.makedirs(os.path.dirname(p), exist_ok=True)
+                with open(p, "w") as fh:
+                    json.dump({"deviceProperties": [{"id": 0}],
+                               "traceEvents": [{"ph": "X", "name": "t", "pid": 0, "tid": 0, "ts": 4.0e9, "dur": 1.0}]}, fh)
                 paths.append(p)
             ing = None
             try:
@@ -220,6 +233,8 @@ def run_real(case):
                     continue
                 forced = [i for i in sorted(collide) if i < len(hs) and hs[i] == ing.jobhash]
                 for ev in ing:
+                    if case.get("torch_last") and "u" not in ev:
+                        continue
                     out.append(_proj(ev, owner))
             except AssertionError:
                 err = "assert"
@@ -231,7 +246,7 @@ def run_real(case):
                 err = type(e).__name__
             if ing is not None:
                 warn = [[g.warnings["negative_duration"].args_list["count"],
-                         g.warnings["zero_duration"].args_list["count"]] for g in ing.ingesters]
+                         g.warnings["zero_duration"].args_list["count"]] for g in ing.ingesters][:len(case["files"])]
                 _quiet(ing)
             break
     finally:
@@ -479,7 +494,12 @@ def gen_wf(ctx: Ctx):
     for _ in range(ctx.n(1200, 20000)):
         u = U()
         k = ctx.rng.choice([1, 2, 2, 3, 3, 4, 5])
-        yield {"files": [gen_wf_file(ctx, u, i) for i in range(k)]}
+        case = {"files": [gen_wf_file(ctx, u, i) for i in range(k)]}
+        if ctx.rng.random() < 0.2:
+            case["layout"] = "dirs"
+            if ctx.rng.random() < 0.5:
+                case["torch_last"] = True
+        yield case
 
 
 def gen_bad(ctx: Ctx):
